@@ -358,3 +358,118 @@ Proof.
   - intros i Hi. rewrite tprod_loop_spec_l by lia.
     apply tprod_ext_len; [lia|]. intros j Hj. apply tprod_loop_spec_l. lia.
 Qed.
+
+(* ------------------------------------------------------------------ *)
+(* the two operators are projections *)
+
+(* interpolation: I = (x)S_k applied to nodal data, E = (x)C_k (evaluation at the nodes).
+   I (E (I rhs)) = I rhs: interpolating the interpolant returns the same coefficients *)
+Lemma interp_is_projection_l shape Ss Cs rhs idx :
+  length Ss = length Cs -> Forall2 is_id shape (mul_list Ss Cs) ->
+  inrange shape idx -> (length Ss <= length idx)%nat ->
+  tprod_loop Ss (tprod Cs (tprod_loop Ss rhs)) idx = tprod_loop Ss rhs idx.
+Proof. intros. apply (interp_reproduces_l shape); assumption. Qed.
+
+(* ... and in terms of nodal values: E I E c = E c when C_k S_k = I *)
+Lemma interp_values_projection_l nshape Cs Ss c idx :
+  length Cs = length Ss -> Forall2 is_id nshape (mul_list Cs Ss) ->
+  inrange nshape idx -> (length Ss <= length idx)%nat ->
+  tprod Cs (tprod_loop Ss (tprod Cs c)) idx = tprod Cs c idx.
+Proof. intros. apply (interp_matches_nodes_l nshape); assumption. Qed.
+
+Section L2projection.
+  Variables (N Q : nat) (Cq : nat -> nat -> Qc) (w : nat -> Qc).
+  (* a solver for the mass matrix: any map with M (sol b) = b on the N equations *)
+  Variable sol : (nat -> Qc) -> nat -> Qc.
+  Hypothesis Hsol : forall b i, (i < N)%nat -> mv N (massq Q Cq w) (sol b) i = b i.
+  Hypothesis Hw : forall q, (q < Q)%nat -> 0 < w q.
+  Hypothesis Huni : forall y, (forall q, (q < Q)%nat -> spl N Cq y q = 0) -> forall i, (i < N)%nat -> y i = 0.
+
+  (* P f = the projected function sampled at the quadrature points *)
+  Definition l2proj (f : nat -> Qc) : nat -> Qc := spl N Cq (sol (loadq Q Cq w f)).
+
+  Lemma l2_coeffs_reproduced c i : (i < N)%nat -> sol (loadq Q Cq w (spl N Cq c)) i = c i.
+  Proof.
+    intros Hi. apply (l2_reproduces_l N Q Cq w c); [|intros k Hk; apply Hsol; exact Hk|exact Hi].
+    apply mass_injective_l; assumption.
+  Qed.
+
+  Lemma spl_ext x y q : (forall j, (j < N)%nat -> x j = y j) -> spl N Cq x q = spl N Cq y q.
+  Proof. intros H. unfold spl. apply sumn_ext. intros j Hj. rewrite (H j Hj). reflexivity. Qed.
+
+  Lemma l2_projection_is_projection_l :
+    (forall c i, (i < N)%nat -> sol (loadq Q Cq w (spl N Cq c)) i = c i) /\
+    (forall c q, l2proj (spl N Cq c) q = spl N Cq c q) /\
+    (forall f q, l2proj (l2proj f) q = l2proj f q).
+  Proof.
+    split; [exact l2_coeffs_reproduced|]. split.
+    - intros c q. unfold l2proj. apply spl_ext. intros j Hj. apply l2_coeffs_reproduced. exact Hj.
+    - intros f q. unfold l2proj. apply spl_ext. intros j Hj. apply l2_coeffs_reproduced. exact Hj.
+  Qed.
+End L2projection.
+
+(* ------------------------------------------------------------------ *)
+(* hierarchical spaces: the basis is given by its representation P (Nf fine tensor-product functions
+   x N hierarchical functions; hs.represent_fine, HB or THB) on the finest level.  The discrete L2
+   setting with the sampled basis Ch = Cf P IS the Galerkin restriction of the fine-level
+   quantities: Gram matrix P^T M_f P (what C03's hassemble_galerkin shows assemble_matrix to be)
+   and load vector P^T b_f. *)
+Section Hier.
+  Variables (Nf N Q : nat) (Cf P : nat -> nat -> Qc) (w : nat -> Qc).
+  Definition Ch (q i : nat) : Qc := sumn Nf (fun r => Cf q r * P r i).
+  Definition galerkin (i j : nat) : Qc :=
+    sumn Nf (fun r => sumn Nf (fun s => P r i * massq Q Cf w r s * P s j)).
+  Definition restrict (b : nat -> Qc) (i : nat) : Qc := sumn Nf (fun r => P r i * b r).
+
+  Lemma hs_load f i : loadq Q Ch w f i = restrict (loadq Q Cf w f) i.
+  Proof.
+    unfold loadq, restrict, Ch.
+    rewrite (sumn_ext Q _ (fun q => sumn Nf (fun r => P r i * (Cf q r * w q * f q)))).
+    - rewrite sumn_swap. apply sumn_ext. intros r _. rewrite sumn_scal. reflexivity.
+    - intros q _.
+      transitivity ((w q * f q) * sumn Nf (fun r => Cf q r * P r i)); [ring|].
+      rewrite <- sumn_scal. apply sumn_ext. intros r _. ring.
+  Qed.
+
+  Lemma hs_mass i j : massq Q Ch w i j = galerkin i j.
+  Proof.
+    unfold massq at 1, galerkin.
+    transitivity (sumn Q (fun q => sumn Nf (fun r => sumn Nf (fun s =>
+                    P r i * (Cf q r * w q * Cf q s) * P s j)))).
+    - apply sumn_ext. intros q _. unfold Ch.
+      transitivity ((w q * sumn Nf (fun s => Cf q s * P s j)) * sumn Nf (fun r => Cf q r * P r i)); [ring|].
+      rewrite <- sumn_scal. apply sumn_ext. intros r _.
+      transitivity ((Cf q r * P r i * w q) * sumn Nf (fun s => Cf q s * P s j)); [ring|].
+      rewrite <- sumn_scal. apply sumn_ext. intros s _. ring.
+    - rewrite sumn_swap. apply sumn_ext. intros r _.
+      rewrite sumn_swap. apply sumn_ext. intros s _. unfold massq.
+      transitivity ((P r i * P s j) * sumn Q (fun q => Cf q r * w q * Cf q s)); [|ring].
+      rewrite <- sumn_scal. apply sumn_ext. intros q _. ring.
+  Qed.
+
+  (* L2 projection into the hierarchical space, stated on the assembled quantities: if x solves
+     (P^T M_f P) x = P^T b_f for the load vector b_f of a function of the hierarchical space,
+     x are its coefficients; and for any data the residual is orthogonal to every hierarchical
+     basis function.  The hypothesis that the ASSEMBLED load vector is P^T b_f is what
+     _hdiscr.assemble_functional violates for data with finer-level kinks (open finding). *)
+  Lemma hspace_l2_reproduces_l c x :
+    (forall y, (forall i, (i < N)%nat -> mv N galerkin y i = 0) -> forall i, (i < N)%nat -> y i = 0) ->
+    (forall i, (i < N)%nat -> mv N galerkin x i = restrict (loadq Q Cf w (spl N Ch c)) i) ->
+    forall i, (i < N)%nat -> x i = c i.
+  Proof.
+    intros Hinj H. apply (l2_reproduces_l N Q Ch w c x).
+    - intros y Hy. apply Hinj. intros i Hi. rewrite <- (Hy i Hi).
+      unfold mv. apply sumn_ext. intros j _. rewrite hs_mass. reflexivity.
+    - intros i Hi. rewrite hs_load, <- (H i Hi).
+      unfold mv. apply sumn_ext. intros j _. rewrite hs_mass. reflexivity.
+  Qed.
+
+  Lemma hspace_l2_orthogonal_l f x :
+    (forall i, (i < N)%nat -> mv N galerkin x i = restrict (loadq Q Cf w f) i) ->
+    forall i, (i < N)%nat -> sumn Q (fun q => Ch q i * w q * (f q - spl N Ch x q)) = 0.
+  Proof.
+    intros H. apply (l2_residual_orthogonal_l N Q Ch w f x).
+    intros i Hi. rewrite hs_load, <- (H i Hi).
+    unfold mv. apply sumn_ext. intros j _. rewrite hs_mass. reflexivity.
+  Qed.
+End Hier.
